@@ -802,14 +802,15 @@ Qed.
 
 (* ------------------------------------------------------------------ names the allocator gives are clean *)
 Definition cfg_clean (cfg : alloc_cfg) : Prop :=
-  clean (cfg_in cfg) /\ clean (cfg_out cfg) /\ ~ In tab (cfg_prefix cfg) /\ ~ In nl (cfg_prefix cfg).
+  clean (cfg_in cfg) /\ clean (cfg_out cfg) /\ ~ In tab (cfg_prefix cfg) /\ ~ In nl (cfg_prefix cfg)
+  /\ ~ In tab (f_suffix (cfg_fmt cfg)) /\ ~ In nl (f_suffix (cfg_fmt cfg)).
 
+(* edited by the C05 agent when Allocator.Format was generalised from prefix ++ "%d" to the format
+   language of model/Alloc.v: the literal text after the verb must be free of tab / newline too *)
 Lemma tmpname_clean cfg t : cfg_clean cfg -> clean (tmpname cfg t).
 Proof.
-  intros (_ & _ & Ht & Hn). unfold tmpname. split; [|split].
-  - intros E. apply app_eq_nil in E as [_ E]. revert E. apply print_decN_nonempty.
-  - rewrite in_app_iff. intros [H|H]; [auto|]. revert H. apply digits_no. reflexivity.
-  - rewrite in_app_iff. intros [H|H]; [auto|]. revert H. apply digits_no. reflexivity.
+  intros (_ & _ & Ht & Hn & Hts & Hns). split; [apply tmpname_nonempty|split]; intros H;
+    apply tmpname_chars in H as [H|[H|H]]; auto; unfold tab, nl in H; revert H; apply N.lt_nge; reflexivity.
 Qed.
 
 Definition tmps_named (cfg : alloc_cfg) (s : naming) : Prop := forall n, In n (temps s) -> exists t, n = tmpname cfg t.
